@@ -217,6 +217,10 @@ class BufWorld(World):
         that only READS serves the file's content and writes nothing; (2) no context is open, so a
         mutation is in the backend when the call returns (and nothing stays buffered)."""
         from .plain import kind_of
+        for cls in {type(self.handles[i].real) for i in self.roots()}:
+            if hasattr(cls, "get_current_buffer_size") and cls.get_current_buffer_size() != 0:
+                raise Mismatch("buffer_size_nonzero_after_failed_exit", step=s, cls=cls.__name__,
+                               size=cls.get_current_buffer_size())
         for i in self.roots():
             h = self.handles[i]
             res = self.res[h.res]
